@@ -45,7 +45,9 @@ Ints ==
         THEN {Leaf(108, <<251, 255, 255, 255>> \o LE16(5) \o LE16(0) \o LE16(0) \o LE16(0) \o LE16(16), LongTok(1, <<5, 0, 0, 0, 16>>), TRUE), \* -(2^64+5)
               Leaf(105, <<255, 255, 255, 255>>, IntTok(1, <<1>>), TRUE)}
         ELSE {})
-  \cup (IF MV <= 2 THEN {Leaf(73, <<0, 0, 0, 0, 1, 0, 0, 0>>, IntTok(0, <<0, 0, 4>>), TRUE)} ELSE {})   \* 'I' 2^32
+  \cup (IF MV <= 2 THEN {Leaf(73, <<0, 0, 0, 0, 1, 0, 0, 0>>, IntTok(0, <<0, 0, 4>>), TRUE),                 \* 'I' 2^32
+                          Leaf(73, <<0, 0, 0, 0, 0, 255, 255, 255>>, IntTok(1, <<0, 0, 1024>>), TRUE)}       \* 'I' -(2^40): sign bit of the 64-bit form
+        ELSE {})
 Floats ==
   (IF MV >= 2 THEN {Leaf(103, F15, [k |-> "float", n |-> 0, b |-> F15], TRUE), Leaf(103, FNAN, [k |-> "float", n |-> 0, b |-> FNAN], TRUE)}
                    \cup (IF Cfg.rich = 1 THEN {Leaf(103, FNZ, [k |-> "float", n |-> 0, b |-> FNZ], TRUE),
